@@ -207,7 +207,8 @@ pub fn dependency_svd_error<T: Sc>(a: &DMatrix<T>) -> Option<f64> {
     let u = widen(svd.u.as_ref()?);
     let vt = widen(svd.v_t.as_ref()?);
     let s: Vec<f64> = svd.singular_values.iter().map(|x| x.w()).collect();
-    if s.iter().any(|x| !x.is_finite()) {
+    if s.iter().any(|x| !x.is_finite()) || !u.all_finite() || !vt.all_finite() {
+        // the decomposition is unusable (varpro's calculate_svd rejects it as well)
         return None;
     }
     let us = Mat::from_fn(u.r, u.c, |i, j| u.at(i, j) * s[j]);
